@@ -276,7 +276,10 @@ def _sync_list_tensor_states(
             process_group=process_group,
         )
         if result is None:
-            # all ranks state_data is empty, no need to sync
+            # all ranks state_data is empty, no need to sync: every rank's list is []
+            if rank is None or dist.get_rank(group=process_group) == rank:
+                for _rank in range(len(gathered_list_lengths)):
+                    gathered_states[_rank][metric_name][state_name] = []
             return
         dtype, shape = result  # unpack results
     else:
